@@ -180,3 +180,149 @@ Example code_policy_example :
       TKill 3%nat; TJoinDead 3%nat; TJoinDead 4%nat],
      Some 5000).
 Proof. vm_compute. reflexivity. Qed.
+
+(* ================================================================== the whole teardown (round 5) *)
+Lemma exited_workers_nonneg : forall ws, 0 <= exited_workers ws.
+Proof.
+  induction ws as [|[w c] r IH]; cbn [exited_workers fold_right snd]; [lia|].
+  fold (exited_workers r). destruct c; lia.
+Qed.
+
+(* the ask phase costs one linger per worker whose process is gone, nothing else *)
+Lemma ask_end : forall ws now, snd (ask now ws) = now + linger * exited_workers ws.
+Proof.
+  induction ws as [|[w c] r IH]; intros now; cbn [ask exited_workers fold_right snd]; [lia|].
+  fold (exited_workers r).
+  destruct c as [|z|d|].
+  - specialize (IH now). destruct (ask now r) as [r' e]. cbn [snd] in *. exact IH.
+  - specialize (IH (now + linger)). destruct (ask (now + linger) r) as [r' e]. cbn [snd] in *. lia.
+  - specialize (IH now). destruct (ask now r) as [r' e]. cbn [snd] in *. exact IH.
+  - specialize (IH now). destruct (ask now r) as [r' e]. cbn [snd] in *. exact IH.
+Qed.
+
+(* the teardown of the code: whatever the workers are doing, however many of them are dead, whatever
+   the server holds and however long its sweep takes (as long as it gets through it): every worker is
+   dead afterwards, NO SEGMENT IS LEFT, and the whole thing ends within
+   (one linger per dead worker) + (the grace period) + (the sweep) *)
+Theorem teardown_t_clean : forall mono0 ws s, wedged s = false ->
+  let '(ws', a, t_ask, (lft, sa, x)) := teardown_t mono0 ws s in
+  no_live_worker ws' = true /\ lft = false /\ Forall join_in_grace a
+  /\ t_ask = linger * exited_workers ws
+  /\ (forall t, In (SJoin (Some t)) sa -> False) /\ ~ In SKill sa
+  /\ exists e, x = Some e /\ t_ask <= e <= t_ask + grace + sweep_of s.
+Proof.
+  intros mono0 ws s W. unfold teardown_t, teardown_with.
+  pose proof (ask_end ws 0) as AE. pose proof (exited_workers_nonneg ws) as NN.
+  destruct (ask 0 ws) as [ws1 t_ask]. cbn [snd] in AE.
+  pose proof (reap_t_bounded mono0 t_ask ws1 t_ask ltac:(unfold grace; lia)) as R.
+  destruct (reap_with (code_policy mono0 t_ask) t_ask ws1) as [[ws2 a] x].
+  destruct R as [N [[e [E B]] F]]. subst x.
+  destruct s as [|segs sweep|segs]; [| |discriminate W]; cbn [shm_with sweep_of].
+  - split; [exact N|]. split; [reflexivity|]. split; [exact F|]. split; [lia|].
+    split; [intros t []|]. split; [intros []|]. exists e. split; [reflexivity|lia].
+  - split; [exact N|]. split; [reflexivity|]. split; [exact F|]. split; [lia|].
+    split; [intros t [H|[]]; discriminate H|]. split; [intros [H|[]]; discriminate H|].
+    eexists. split; [reflexivity|lia].
+Qed.
+
+(* the shm phase under ANY timeout: segments stay behind exactly when the server holds some and is
+   given less than its sweep needs *)
+Theorem shm_with_left_iff : forall policy now segs sweep t, policy now = Some t -> t <= max_timeout ->
+  fst (fst (shm_with policy now (SHolds segs sweep))) = true <-> ((0 < segs)%nat /\ Z.max 0 t < Z.max 0 sweep).
+Proof.
+  intros policy now segs sweep t P L. cbn [shm_with]. rewrite P.
+  destruct (Z.ltb_spec max_timeout t) as [X|_]; [lia|].
+  destruct (Z.leb_spec (Z.max 0 sweep) (Z.max 0 t)) as [D|D]; cbn [fst].
+  - split; [discriminate|]. intros [_ H]. lia.
+  - rewrite Nat.ltb_lt. split; [intros H; split; [exact H|lia]|intros [H _]; exact H].
+Qed.
+
+(* without a timeout nothing is ever left, and the phase ends as soon as the sweep is through *)
+Theorem shm_with_wait_clean : forall policy now segs sweep, policy now = None ->
+  shm_with policy now (SHolds segs sweep) = (false, [SJoin None], Some (now + Z.max 0 sweep)).
+Proof. intros policy now segs sweep P. cbn [shm_with]. rewrite P. reflexivity. Qed.
+
+(* why this matters: ONE deadline for the whole teardown, taken before the workers are asked.
+   (1) five workers of six are dead (an OOM-killer wave): the undeliverable shutdown requests use up the
+   deadline, the server is killed 0 ms after it acknowledged; (2) one worker does not leave within the
+   grace period: it is killed at the deadline as it should be, and nothing is left for the server.
+   In both the code itself leaves nothing. *)
+Example one_deadline_leaves_segments :
+  let dead5 := [(0%nat, TLeaves 0); (1%nat, TExited (-9)); (2%nat, TExited (-9)); (3%nat, TExited (-9)); (4%nat, TExited (-9)); (5%nat, TExited (-9))] in
+  let busy1 := [(0%nat, TLeaves 0); (1%nat, TNever)] in
+  snd (teardown_one_deadline 1234500 dead5 (SHolds 3 2)) = (true, [SJoin (Some 0); SKill], Some 5000)
+  /\ snd (teardown_t 1234500 dead5 (SHolds 3 2)) = (false, [SJoin None], Some 5002)
+  /\ snd (teardown_one_deadline 1234500 busy1 (SHolds 3 2)) = (true, [SJoin (Some 0); SKill], Some 5000)
+  /\ snd (teardown_t 1234500 busy1 (SHolds 3 2)) = (false, [SJoin None], Some 5002)
+  (* with idle workers the neighbour behaves: that is why no passing-run test sees it *)
+  /\ snd (teardown_one_deadline 1234500 [(0%nat, TLeaves 0); (1%nat, TLeaves 0)] (SHolds 3 2)) = (false, [SJoin (Some 5000)], Some 2).
+Proof. vm_compute. repeat split. Qed.
+
+(* a server that never gets through its sweep: the code waits for ever (outside the property: the
+   server has not died; recorded because the model can say it) *)
+Example wedged_server_blocks_the_code :
+  snd (snd (teardown_t 0 [(0%nat, TLeaves 0)] (SWedged 1))) = None.
+Proof. vm_compute. reflexivity. Qed.
+
+(* ------------------------------------------------------------------ refinement, with the ask phase *)
+(* reap_t_refines for a deadline taken at any moment now0: a worker is Net/Executor.v's `Stuck`
+   exactly when it leaves after the deadline now0 + grace *)
+Lemma kill_acts_cons_at w c l :
+  kill_acts ((w, c) :: l) = match c with Stuck => [KillWorker w] | _ => [] end ++ kill_acts l.
+Proof. reflexivity. Qed.
+
+Theorem reap_refines_at : forall mono0 now0 ws now, now0 <= now <= now0 + grace ->
+  let '(ws', a, _) := reap_with (code_policy mono0 now0) now ws in
+  abs_workers_at (now0 + grace) ws' = map (fun p => (fst p, reap (snd p))) (abs_workers_at (now0 + grace) ws)
+  /\ kills a = kill_acts (abs_workers_at (now0 + grace) ws).
+Proof.
+  intros mono0 now0 ws. unfold abs_workers_at. induction ws as [|[w c] r IH]; intros now B.
+  - cbn. split; reflexivity.
+  - assert (T : code_policy mono0 now0 now = Some (now0 + grace - now)) by (unfold code_policy; f_equal; lia).
+    set (t := now0 + grace - now) in *.
+    assert (Ht : 0 <= t <= grace) by (unfold t; lia).
+    assert (Hm : (max_timeout <? t) = false) by (apply Z.ltb_ge; unfold max_timeout, grace in *; lia).
+    destruct c as [|z|d|]; cbn [reap_with]; cbv zeta; rewrite ?T; cbn [join]; rewrite ?Hm.
+    + specialize (IH now B). destruct (reap_with (code_policy mono0 now0) now r) as [[r' a] x].
+      destruct IH as [A K]. cbn [map fst snd abs_stat_at reap]. rewrite kill_acts_cons, A, K. split; reflexivity.
+    + specialize (IH now B). destruct (reap_with (code_policy mono0 now0) now r) as [[r' a] x].
+      destruct IH as [A K]. cbn [map fst snd abs_stat_at reap]. rewrite kills_dead, kill_acts_cons, A, K. split; reflexivity.
+    + destruct (Z.leb_spec d (now + Z.max 0 t)) as [D|D].
+      * assert (B' : now0 <= Z.max now d <= now0 + grace) by (unfold t in D; lia).
+        specialize (IH _ B'). destruct (reap_with (code_policy mono0 now0) (Z.max now d) r) as [[r' a] x].
+        destruct IH as [A K]. cbn [map fst snd abs_stat_at]. rewrite kills_join, kill_acts_cons, A, K.
+        destruct (Z.leb_spec d (now0 + grace)) as [G|G]; [|unfold t in D; lia]. split; reflexivity.
+      * assert (B' : now0 <= now + Z.max 0 t <= now0 + grace) by (unfold t; lia).
+        specialize (IH _ B'). destruct (reap_with (code_policy mono0 now0) (now + Z.max 0 t) r) as [[r' a] x].
+        destruct IH as [A K]. cbn [map fst snd abs_stat_at]. rewrite kills_join, kills_kill, kills_dead, kill_acts_cons, A, K.
+        destruct (Z.leb_spec d (now0 + grace)) as [G|G]; [unfold t in D; lia|]. split; reflexivity.
+    + assert (B' : now0 <= now + Z.max 0 t <= now0 + grace) by (unfold t; lia).
+      specialize (IH _ B'). destruct (reap_with (code_policy mono0 now0) (now + Z.max 0 t) r) as [[r' a] x].
+      destruct IH as [A K]. cbn [map fst snd abs_stat_at reap]. rewrite kills_join, kills_kill, kills_dead, kill_acts_cons, A, K. split; reflexivity.
+Qed.
+
+(* the whole timed teardown IS Executor.terminate: the workers Net/Executor.v calls Stuck are the ones
+   that leave after (end of the ask phase + grace); the same workers are killed, the same states result,
+   the shm server is asked and waited for iff it is alive, and -- as that model says -- its segments are gone *)
+Corollary teardown_is_terminate : forall mono0 e tws s, terminating e = false -> wedged s = false ->
+  let '(ws', a, t_ask, (lft, sa, x)) := teardown_t mono0 tws s in
+  workers e = abs_workers_at (t_ask + grace) (fst (ask 0 tws)) -> is_alive (shm e) = abs_shm s ->
+  workers (fst (terminate e)) = abs_workers_at (t_ask + grace) ws'
+  /\ snd (terminate e) = shutdown_msgs (workers e) ++ kills a
+       ++ (if is_alive (shm e) then [ShmShutdown] else []) ++ (if is_alive (ds e) then [KillDs] else [])
+  /\ (sa = if is_alive (shm e) then [SJoin None] else [])
+  /\ lft = false /\ (is_alive (shm e) = true -> segs (fst (terminate e)) = []).
+Proof.
+  intros mono0 e tws s NT W. unfold teardown_t, teardown_with.
+  destruct (ask 0 tws) as [ws1 t_ask]. cbn [fst].
+  pose proof (reap_refines_at mono0 t_ask ws1 t_ask ltac:(unfold grace; lia)) as R.
+  pose proof (reap_t_bounded mono0 t_ask ws1 t_ask ltac:(unfold grace; lia)) as G.
+  destruct (reap_with (code_policy mono0 t_ask) t_ask ws1) as [[ws2 a] x].
+  destruct R as [A K]. destruct G as [_ [[en [E Le]] _]]. subst x.
+  assert (S : shm_with (fun _ => None) en s = (false, if abs_shm s then [SJoin None] else [], snd (shm_with (fun _ => None) en s))).
+  { destruct s as [|sg sw|sg]; [reflexivity|reflexivity|discriminate W]. }
+  rewrite S. intros WE SE.
+  unfold terminate. rewrite NT. cbn [fst snd workers segs]. rewrite WE, A, K, <- SE.
+  split; [reflexivity|]. split; [reflexivity|]. split; [reflexivity|]. split; [reflexivity|].
+  intros H. rewrite H. reflexivity.
+Qed.
